@@ -4,8 +4,15 @@ Property theorems about `Glotaran.C03` (lean/GlotaranModel/C03.lean).
 
 `entry? m i j : Option Rat` (Lemmas/C03.lean) is entry (i, j) of a list-of-rows matrix,
 `none` when the position does not exist: `(m[i]?).bind (·[j]?)`.
+
+Linked groups: the theorems are about `linkedResultsOwn` / `groupResultsOwn` (every dataset laid out on its own
+global index order — the code after fix D27, what the driver's `results` executes); section 10 relates the legacy
+aligned-order layout `linkedResults` to it.
 -/
 import GlotaranProofs.Lemmas.C03
+import GlotaranProofs.Lemmas.C03Linked
+import GlotaranProofs.Lemmas.C03Full
+import GlotaranProofs.Lemmas.C03Legacy
 namespace Glotaran.C03
 open Glotaran.LinAlg Glotaran.C02
 
@@ -163,7 +170,7 @@ example :
 /-! ### 5. linked groups: un-stacking the residual of an aligned index -/
 
 /-- Slicing the stacked vector by the sizes of the preceding blocks returns block `k`
-    (offset in the `foldl (· + ·) 0` form `linkedResults` uses). -/
+    (offset in the `foldl (· + ·) 0` form `linkedResultsOwn` uses). -/
 theorem unstack_stack (bs : List Vec) (k : Nat) (hk : k < bs.length) :
     (bs.flatten.drop (((bs.take k).map List.length).foldl (· + ·) 0)).take bs[k].length = bs[k] := by
   rw [foldl_add_eq_sum]; exact unstack_stack_sum bs k hk
@@ -240,18 +247,18 @@ example :
     clp labels, clps, residual, weighted residual, fitted data — exactly as it was. -/
 theorem linked_result_label_independent (mi : ModelItems) (g : Group) (f : String → String)
     (hinj : ∀ d1 ∈ g.datasets, ∀ d2 ∈ g.datasets, f d1.label = f d2.label → d1.label = d2.label) :
-    linkedResults mi (renameGroup f g) = (linkedResults mi g).map (List.map (relabel f)) :=
-  linkedResults_rename mi g f hinj
+    linkedResultsOwn mi (renameGroup f g) = (linkedResultsOwn mi g).map (List.map (relabel f)) :=
+  linkedResultsOwn_rename mi g f hinj
 
 /-- all numeric fields (and the clp labels) of the results are unchanged -/
 theorem linked_result_numeric_label_independent (mi : ModelItems) (g : Group) (f : String → String)
     (hinj : ∀ d1 ∈ g.datasets, ∀ d2 ∈ g.datasets, f d1.label = f d2.label → d1.label = d2.label) :
-    (linkedResults mi (renameGroup f g)).map
+    (linkedResultsOwn mi (renameGroup f g)).map
         (List.map (fun r => (r.clpLabels, r.clps, r.residual, r.weighted, r.fitted))) =
-    (linkedResults mi g).map
+    (linkedResultsOwn mi g).map
         (List.map (fun r => (r.clpLabels, r.clps, r.residual, r.weighted, r.fitted))) := by
-  rw [linkedResults_rename mi g f hinj]
-  cases linkedResults mi g with
+  rw [linkedResultsOwn_rename mi g f hinj]
+  cases linkedResultsOwn mi g with
   | none => rfl
   | some rs => simp [relabel, Function.comp_def]
 
@@ -265,9 +272,9 @@ private def exGroup (l1 l2 : String) : Group :=
         weight := some [[1, 2], [1, 1], [2, 1]], scale := some 2,
         mcs := [⟨⟨["c", "e"], .d2 [[1, 0], [1, 1], [1, 2]]⟩, none⟩], gmcs := [] }] }
 
-example : (linkedResults {} (exGroup "a" "b")).isSome = true ∧
-    linkedResults {} (renameGroup (fun l => l ++ "'") (exGroup "a" "b")) =
-      (linkedResults {} (exGroup "a" "b")).map (List.map (relabel (fun l => l ++ "'"))) :=
+example : (linkedResultsOwn {} (exGroup "a" "b")).isSome = true ∧
+    linkedResultsOwn {} (renameGroup (fun l => l ++ "'") (exGroup "a" "b")) =
+      (linkedResultsOwn {} (exGroup "a" "b")).map (List.map (relabel (fun l => l ++ "'"))) :=
   ⟨by decide +kernel,
    linked_result_label_independent {} (exGroup "a" "b") (fun l => l ++ "'") (by
      intro d1 _ d2 _ h
@@ -277,8 +284,369 @@ example : (linkedResults {} (exGroup "a" "b")).isSome = true ∧
     the block offset of the second one (its residual is cut from the wrong place of the stacked
     residual of the shared aligned index). -/
 theorem linked_result_label_independent_needs_injective :
-    (linkedResults {} (renameGroup (fun _ => "a") (exGroup "a" "b"))).map (List.map (·.residual)) ≠
-    (linkedResults {} (exGroup "a" "b")).map (List.map (·.residual)) := by
+    (linkedResultsOwn {} (renameGroup (fun _ => "a") (exGroup "a" "b"))).map (List.map (·.residual)) ≠
+    (linkedResultsOwn {} (exGroup "a" "b")).map (List.map (·.residual)) := by
+  decide +kernel
+
+/-! ### 8. fitted = dataset scale × matrix × clp
+
+Vocabulary (Lemmas/C03Fit.lean, Lemmas/C03Linked.lean, model C03.lean):
+* `matrixAt lm nGlobal i` — the `matrix` variable of the result at global index `i`: slice `i` of the dataset's
+  combined megacomplex matrix `lm = datasetMatrix d.mcs`, not scaled, not reduced, not weighted;
+* `LMatOK nModel nGlobal lm` — distinct clp labels, `nModel` rows (per index), one column per label;
+  `DataOK d` — data (and weight) are `nModel × nGlobal`;
+* `NoChain rels L x` (C02) — among the relations applying at `x` on labels `L` no source is a target and
+  the targets are distinct; the excluded point is finding D18 (counter-example below);
+* `PointSpec d lm r i m` — the statement at one point: with `clp = r.clps[i]`, `row = (matrixAt lm _ i)[m]`,
+  `k` the dataset scale, `y = data[m][i]`:
+    no weight:  `residual[m][i] = y − k·row·clp`, `fitted[m][i] = y − residual[m][i]`;
+    weight `ω`: `weighted_residual[m][i] = ω·(y − k·row·clp)`, `residual = weighted_residual/ω`,
+                `fitted[m][i] = y − weighted_residual[m][i]/ω`.
+-/
+
+/-- **Unlinked dataset (no global model), every point, weighted or not**: the reported clps of index
+    `i` have one entry per clp label of the dataset's matrix and the (weighted) residual is
+    `weight · (data − scale · matrix_i · clp_i)`; `fitted = data − weighted residual / weight`.
+    Partial: `NoChain` at every global index (D18). -/
+theorem point_spec_unlinked_partial (mi : ModelItems) (s : Solver) (d : Dataset) (lm : LMat) (r : DsResult)
+    (h : unlinkedResult mi s d = some r) (hg : d.gmcs = []) (hlm : datasetMatrix d.mcs = some lm)
+    (hok : LMatOK d.nModel d.nGlobal lm) (hd : DataOK d)
+    (hnc : ∀ x ∈ d.globalAxis, NoChain mi.relations lm.labels x)
+    (i m : Nat) (hi : i < d.nGlobal) (hm : m < d.nModel) :
+    r.clpLabels = lm.labels ∧
+    ∃ clp row y, r.clps[i]? = some clp ∧ clp.length = lm.labels.length ∧
+      (matrixAt lm d.nGlobal i)[m]? = some row ∧ entry? d.data m i = some y ∧
+      match d.weight with
+      | none => r.weighted = none ∧
+          entry? r.residual m i = some (y - d.scale.getD 1 * dot row clp) ∧
+          entry? r.fitted m i = some (y - (y - d.scale.getD 1 * dot row clp))
+      | some w => ∃ ω wres, entry? w m i = some ω ∧ r.weighted = some wres ∧
+          entry? wres m i = some (ω * (y - d.scale.getD 1 * dot row clp)) ∧
+          entry? r.residual m i = some (ω * (y - d.scale.getD 1 * dot row clp) / ω) ∧
+          entry? r.fitted m i = some (y - ω * (y - d.scale.getD 1 * dot row clp) / ω) :=
+  unlinked_point mi s d lm r h hg hlm hok hd hnc i m hi hm
+
+/-- **Unlinked: `fitted[m][i] = scale · (matrix_i · clp_i)[m]`** wherever the weight (if any) is non-zero. -/
+theorem fitted_eq_scale_matrix_clp_unlinked_partial (mi : ModelItems) (s : Solver) (d : Dataset) (lm : LMat)
+    (r : DsResult) (h : unlinkedResult mi s d = some r) (hg : d.gmcs = [])
+    (hlm : datasetMatrix d.mcs = some lm) (hok : LMatOK d.nModel d.nGlobal lm) (hd : DataOK d)
+    (hnc : ∀ x ∈ d.globalAxis, NoChain mi.relations lm.labels x)
+    (i m : Nat) (hi : i < d.nGlobal) (hm : m < d.nModel)
+    (hw : ∀ w, d.weight = some w → entry? w m i ≠ some 0) :
+    ∃ clp row, r.clps[i]? = some clp ∧ clp.length = lm.labels.length ∧
+      (matrixAt lm d.nGlobal i)[m]? = some row ∧
+      entry? r.fitted m i = some (d.scale.getD 1 * dot row clp) :=
+  (unlinked_pointSpec mi s d lm r h hg hlm hok hd hnc i m hi hm).2.fitted hw
+
+/-- a weighted (one weight is 2), scaled (×2) 2 × 2 dataset with two compartments, s2 = 3·s1 on the whole axis -/
+private def exDs : Dataset :=
+  { label := "a", globalAxis := [0, 1], data := [[1, 2], [2, 3]], weight := some [[1, 2], [1, 1]],
+    scale := some 2, mcs := [⟨⟨["s1", "s2"], .d2 [[1, 0], [1, 1]]⟩, none⟩], gmcs := [] }
+private def exMi : ModelItems := { relations := [⟨"s1", "s2", 3, none⟩] }
+private def exLm : LMat := ⟨["s1", "s2"], .d2 [[1, 0], [1, 1]]⟩
+
+private theorem exDs_ok : datasetMatrix exDs.mcs = some exLm ∧ LMatOK exDs.nModel exDs.nGlobal exLm ∧ DataOK exDs ∧
+    ∀ x ∈ exDs.globalAxis, NoChain exMi.relations exLm.labels x := by
+  refine ⟨rfl, ⟨by decide, ?_⟩, ⟨by decide, ?_⟩, ?_⟩
+  · show _ ∧ _
+    exact ⟨by decide, by decide⟩
+  · intro w hw
+    obtain rfl : [[1, 2], [1, 1]] = w := Option.some.inj hw
+    decide
+  · intro x _
+    exact noChain_of_flat _ ⟨by decide, by decide⟩ _ _
+
+example : ∃ r, unlinkedResult exMi .vp exDs = some r ∧
+    ∃ clp row, r.clps[1]? = some clp ∧ (matrixAt exLm 2 1)[1]? = some row ∧
+      entry? r.fitted 1 1 = some (2 * dot row clp) := by
+  have hs : (unlinkedResult exMi .vp exDs).isSome = true := by decide +kernel
+  obtain ⟨r, hr⟩ := Option.isSome_iff_exists.mp hs
+  obtain ⟨h1, h2, h3, h4⟩ := exDs_ok
+  obtain ⟨clp, row, hc, _, hrow, hf⟩ := fitted_eq_scale_matrix_clp_unlinked_partial exMi .vp exDs exLm r hr rfl
+    h1 h2 h3 h4 1 1 (by decide) (by decide) (by
+      intro w hw
+      obtain rfl : [[1, 2], [1, 1]] = w := Option.some.inj hw
+      decide +kernel)
+  exact ⟨r, hr, clp, row, hc, hrow, hf⟩
+
+/-- the numbers of that example: clps (9/34, 27/34) at index 0, fitted column (9/17, 36/17) — twice
+    (1·9/34, 1·9/34 + 1·27/34) -/
+example : (unlinkedResult exMi .vp exDs).map (fun r => (r.clps[0]?, r.fitted.map (·[0]?))) =
+    some (some [9/34, 27/34], [some (9/17), some (36/17)]) := by decide +kernel
+
+/-- **Chained relations break `fitted = matrix × clp` (finding D18)**: with s2 = 3·s1 and s3 = 2·s2 on an
+    identity matrix and data (1, 3, 6) the result reports clps (1, 3, 6) — `matrix · clp = (1, 3, 6)` — but
+    `fitted_data = (1, 3, 0)`: the reduced matrix dropped s3.  `NoChain` fails for this input. -/
+theorem fitted_eq_scale_matrix_clp_counterexample :
+    let mi : ModelItems := { relations := [⟨"s1", "s2", 3, none⟩, ⟨"s2", "s3", 2, none⟩] }
+    let d : Dataset :=
+      { label := "a", globalAxis := [0], data := [[1], [3], [6]], weight := none, scale := none,
+        mcs := [⟨⟨["s1", "s2", "s3"], .d2 [[1, 0, 0], [0, 1, 0], [0, 0, 1]]⟩, none⟩], gmcs := [] }
+    ¬ NoChain mi.relations ["s1", "s2", "s3"] 0 ∧
+    (unlinkedResult mi .vp d).map (fun r => (r.clps, r.fitted)) = some ([[1, 3, 6]], [[1], [3], [0]]) ∧
+    mulVec [[1, 0, 0], [0, 1, 0], [0, 0, 1]] [1, 3, 6] = [1, 3, 6] := by
+  decide +kernel
+
+/-- **Linked group, every dataset, every point, weighted or not**: for dataset `k` of the group (in
+    dataset order), its own global index `i` and model index `m` the result of dataset `k` satisfies the
+    point statement with the dataset's own matrix, scale, data and weight — whatever datasets share the
+    aligned index and wherever the dataset's block lies in the stacked problem.
+    Partial: `NoChain` on the stacked labels of every aligned index (D18). -/
+theorem point_spec_linked_partial (mi : ModelItems) (g : Group) (rs : List DsResult)
+    (h : linkedResultsOwn mi g = some rs)
+    (hlabels : (g.datasets.map (·.label)).Nodup)
+    (hdata : ∀ d ∈ g.datasets, DataOK d)
+    (hmatrix : ∀ d ∈ g.datasets, ∀ lm, datasetMatrix d.mcs = some lm → LMatOK d.nModel d.nGlobal lm)
+    (haxes : ∀ d ∈ g.datasets, d.globalAxis.Nodup)
+    (hnc : ∀ axis ps, linkedProblems mi g = some (axis, ps) → ∀ p ∈ ps, NoChain mi.relations p.fullLabels p.x)
+    (k : Nat) (hk : k < g.datasets.length) (lm : LMat) (hlm : datasetMatrix g.datasets[k].mcs = some lm)
+    (i m : Nat) (hi : i < g.datasets[k].nGlobal) (hm : m < g.datasets[k].nModel) :
+    ∃ r, rs[k]? = some r ∧ r.label = g.datasets[k].label ∧ r.clpLabels = lm.labels ∧
+    ∃ clp row y, r.clps[i]? = some clp ∧ clp.length = lm.labels.length ∧
+      (matrixAt lm g.datasets[k].nGlobal i)[m]? = some row ∧ entry? g.datasets[k].data m i = some y ∧
+      match g.datasets[k].weight with
+      | none => r.weighted = none ∧
+          entry? r.residual m i = some (y - g.datasets[k].scale.getD 1 * dot row clp) ∧
+          entry? r.fitted m i = some (y - (y - g.datasets[k].scale.getD 1 * dot row clp))
+      | some w => ∃ ω wres, entry? w m i = some ω ∧ r.weighted = some wres ∧
+          entry? wres m i = some (ω * (y - g.datasets[k].scale.getD 1 * dot row clp)) ∧
+          entry? r.residual m i = some (ω * (y - g.datasets[k].scale.getD 1 * dot row clp) / ω) ∧
+          entry? r.fitted m i = some (y - ω * (y - g.datasets[k].scale.getD 1 * dot row clp) / ω) :=
+  linked_point mi g rs h ⟨hlabels, hdata, hmatrix, haxes, hnc⟩ k hk lm hlm i m hi hm
+
+/-- **Linked: `fitted[m][i] = scale · (matrix_i · clp_i)[m]`** wherever the weight (if any) is non-zero. -/
+theorem fitted_eq_scale_matrix_clp_linked_partial (mi : ModelItems) (g : Group) (rs : List DsResult)
+    (h : linkedResultsOwn mi g = some rs)
+    (hlabels : (g.datasets.map (·.label)).Nodup)
+    (hdata : ∀ d ∈ g.datasets, DataOK d)
+    (hmatrix : ∀ d ∈ g.datasets, ∀ lm, datasetMatrix d.mcs = some lm → LMatOK d.nModel d.nGlobal lm)
+    (haxes : ∀ d ∈ g.datasets, d.globalAxis.Nodup)
+    (hnc : ∀ axis ps, linkedProblems mi g = some (axis, ps) → ∀ p ∈ ps, NoChain mi.relations p.fullLabels p.x)
+    (k : Nat) (hk : k < g.datasets.length) (lm : LMat) (hlm : datasetMatrix g.datasets[k].mcs = some lm)
+    (i m : Nat) (hi : i < g.datasets[k].nGlobal) (hm : m < g.datasets[k].nModel)
+    (hw : ∀ w, g.datasets[k].weight = some w → entry? w m i ≠ some 0) :
+    ∃ r clp row, rs[k]? = some r ∧ r.clps[i]? = some clp ∧ clp.length = lm.labels.length ∧
+      (matrixAt lm g.datasets[k].nGlobal i)[m]? = some row ∧
+      entry? r.fitted m i = some (g.datasets[k].scale.getD 1 * dot row clp) := by
+  obtain ⟨r, hr, _, _, hp⟩ := linked_point mi g rs h ⟨hlabels, hdata, hmatrix, haxes, hnc⟩ k hk lm hlm i m hi hm
+  obtain ⟨clp, row, h1, h2, h3, h4⟩ := hp.fitted hw
+  exact ⟨r, clp, row, hr, h1, h2, h3, h4⟩
+
+/-- the global sufficient condition: relation targets pairwise distinct and no source is a target -/
+theorem noChain_of_relations_flat (rels : List Relation) (h : RelationsFlat rels) (L : List String) (x : Rat) :
+    NoChain rels L x := noChain_of_flat rels h L x
+
+/-- the linked example group of section 7 (dataset "b": 3 × 2, weighted, scale 2, sharing aligned value 1
+    with "a" and alone at aligned value 2) satisfies the hypotheses -/
+private theorem exGroup_ok :
+    ((exGroup "a" "b").datasets.map (·.label)).Nodup ∧
+    (∀ d ∈ (exGroup "a" "b").datasets, DataOK d) ∧
+    (∀ d ∈ (exGroup "a" "b").datasets, ∀ lm, datasetMatrix d.mcs = some lm → LMatOK d.nModel d.nGlobal lm) ∧
+    (∀ d ∈ (exGroup "a" "b").datasets, d.globalAxis.Nodup) ∧
+    (∀ axis ps, linkedProblems {} (exGroup "a" "b") = some (axis, ps) →
+      ∀ p ∈ ps, NoChain ({} : ModelItems).relations p.fullLabels p.x) := by
+  refine ⟨by decide, ?_, ?_, ?_, ?_⟩
+  · intro d hd
+    simp only [exGroup, List.mem_cons, List.not_mem_nil, or_false] at hd
+    rcases hd with rfl | rfl
+    · exact ⟨by decide, by intro w hw; cases hw⟩
+    · refine ⟨by decide, ?_⟩
+      intro w hw
+      obtain rfl : [[1, 2], [1, 1], [2, 1]] = w := Option.some.inj hw
+      decide
+  · intro d hd lm hlm
+    simp only [exGroup, List.mem_cons, List.not_mem_nil, or_false] at hd
+    rcases hd with rfl | rfl
+    · obtain rfl : (⟨["c"], .d2 [[1], [1]]⟩ : LMat) = lm := Option.some.inj hlm
+      refine ⟨by decide, ?_⟩
+      show _ ∧ _
+      exact ⟨by decide, by decide⟩
+    · obtain rfl : (⟨["c", "e"], .d2 [[1, 0], [1, 1], [1, 2]]⟩ : LMat) = lm := Option.some.inj hlm
+      refine ⟨by decide, ?_⟩
+      show _ ∧ _
+      exact ⟨by decide, by decide⟩
+  · intro d hd
+    simp only [exGroup, List.mem_cons, List.not_mem_nil, or_false] at hd
+    rcases hd with rfl | rfl <;> decide
+  · intro axis ps _ p _
+    exact noChain_of_flat _ ⟨by decide, by simp⟩ _ _
+
+/-- dataset "b" (index 1 of the group), its global index 0 (aligned value 1, shared with "a"; its block
+    starts at offset 2 of the stacked residual), model index 2, weight 2 -/
+example : ∃ rs r clp row, linkedResultsOwn {} (exGroup "a" "b") = some rs ∧ rs[1]? = some r ∧
+    r.clps[0]? = some clp ∧ (matrixAt ⟨["c", "e"], .d2 [[1, 0], [1, 1], [1, 2]]⟩ 2 0)[2]? = some row ∧
+    entry? r.fitted 2 0 = some (2 * dot row clp) := by
+  have hs : (linkedResultsOwn {} (exGroup "a" "b")).isSome = true := by decide +kernel
+  obtain ⟨rs, hrs⟩ := Option.isSome_iff_exists.mp hs
+  obtain ⟨h1, h2, h3, h4, h5⟩ := exGroup_ok
+  obtain ⟨r, clp, row, hr, hc, _, hrow, hf⟩ := fitted_eq_scale_matrix_clp_linked_partial {} (exGroup "a" "b") rs hrs
+    h1 h2 h3 h4 h5 1 (by decide) ⟨["c", "e"], .d2 [[1, 0], [1, 1], [1, 2]]⟩ rfl 0 2 (by decide) (by decide) (by
+      intro w hw
+      obtain rfl : [[1, 2], [1, 1], [2, 1]] = w := Option.some.inj hw
+      decide +kernel)
+  exact ⟨rs, r, clp, row, hrs, hr, hc, hrow, hf⟩
+
+/-- **Any dataset group, linked or not** (`GroupOK`, Lemmas/C03Linked.lean: rectangular data and weights, well
+    formed matrices; unlinked: no global model and `NoChain` at every global index; linked: distinct dataset
+    labels, no repeated axis value, `NoChain` on the stacked labels): the result of the group's `k`-th
+    dataset carries its label, the clp labels of its matrix and `fitted = scale × matrix × clp` at every
+    point whose weight (if any) is non-zero. -/
+theorem fitted_eq_scale_matrix_clp_partial (mi : ModelItems) (g : Group) (rs : List DsResult)
+    (h : groupResultsOwn mi g = some rs) (hok : GroupOK mi g)
+    (k : Nat) (hk : k < g.datasets.length) (lm : LMat) (hlm : datasetMatrix g.datasets[k].mcs = some lm)
+    (i m : Nat) (hi : i < g.datasets[k].nGlobal) (hm : m < g.datasets[k].nModel)
+    (hw : ∀ w, g.datasets[k].weight = some w → entry? w m i ≠ some 0) :
+    ∃ r clp row, rs[k]? = some r ∧ r.label = g.datasets[k].label ∧ r.clpLabels = lm.labels ∧
+      r.clps[i]? = some clp ∧ clp.length = lm.labels.length ∧
+      (matrixAt lm g.datasets[k].nGlobal i)[m]? = some row ∧
+      entry? r.fitted m i = some (g.datasets[k].scale.getD 1 * dot row clp) := by
+  obtain ⟨r, hr, hl, hc, hp⟩ := group_point mi g rs h hok k hk lm hlm i m hi hm
+  obtain ⟨clp, row, h1, h2, h3, h4⟩ := hp.fitted hw
+  exact ⟨r, clp, row, hr, hl, hc, h1, h2, h3, h4⟩
+
+example : GroupOK {} (exGroup "a" "b") ∧ (groupResultsOwn {} (exGroup "a" "b")).isSome = true := by
+  obtain ⟨h1, h2, h3, h4, h5⟩ := exGroup_ok
+  exact ⟨⟨h2, h3, (fun h => by simp [exGroup] at h), (fun _ => ⟨h1, h4, h5⟩)⟩, by decide +kernel⟩
+
+/-- **Linked groups report every dataset on its own global axis order**: two datasets with *descending*
+    global axes (2, 1) and (3, 2) — the aligned axis is ascending (1, 2, 3) — still get `fitted = matrix·clp`
+    column by column (regression witness for the repaired `get_result`, which used to lay the columns
+    out in aligned-axis order). -/
+example :
+    let g : Group :=
+      { linked := true, solver := .vp, tol := 0, method := .nearest,
+        datasets := [
+          { label := "a", globalAxis := [2, 1], data := [[0, -2], [3, 1], [-1, 4]], weight := none, scale := none,
+            mcs := [⟨⟨["c"], .d2 [[1], [1], [2]]⟩, none⟩], gmcs := [] },
+          { label := "b", globalAxis := [3, 2], data := [[0, -2], [3, 1], [-1, 4]], weight := none, scale := some 2,
+            mcs := [⟨⟨["c"], .d2 [[1], [0], [1]]⟩, none⟩], gmcs := [] }] }
+    (linkedResultsOwn {} g).map (List.map (fun r => (r.clps, r.fitted))) =
+      some [([[5/14], [7/6]], [[5/14, 7/6], [5/14, 7/6], [5/7, 7/3]]),
+            ([[-1/4], [5/14]], [[-1/2, 5/7], [0, 0], [-1/2, 5/7]])] := by
+  decide +kernel
+
+/-! ### 9. datasets with a global model: fitted = matrix × clp × global_matrixᵀ -/
+
+/-- **Full model, every point, weighted or not**: the result reports one clp row per global clp label (each
+    with one entry per clp label of the matrix), and with `grow` = row `g` of the global matrix, `row` = row
+    `m` of the model matrix at index `g`, `S = Σ_j grow[j] · (row · clps[j])` — entry `(m, g)` of
+    `matrix × clpᵀ × global_matrixᵀ` — the (weighted) residual is `ω · (data − S)` and
+    `fitted = data − weighted residual / ω`.  No hypothesis on relations: a full model is not reduced. -/
+theorem point_spec_full_model (mi : ModelItems) (s : Solver) (d : Dataset) (lm gm : LMat) (G : Mat) (r : DsResult)
+    (h : unlinkedResult mi s d = some r) (hgne : d.gmcs ≠ [])
+    (hlm : datasetMatrix d.mcs = some lm) (hgm : datasetMatrix d.gmcs = some gm) (hGb : gm.body = .d2 G)
+    (hok : LMatOK d.nModel d.nGlobal lm) (hd : DataOK d) (hG : G.length = d.nGlobal)
+    (hGw : ∀ r ∈ G, r.length = gm.labels.length)
+    (g m : Nat) (hg : g < d.nGlobal) (hm : m < d.nModel) :
+    r.clpLabels = lm.labels ∧ r.clps.length = gm.labels.length ∧
+    ∃ grow row y ω, G[g]? = some grow ∧ (matrixAt lm d.nGlobal g)[m]? = some row ∧
+      entry? d.data m g = some y ∧
+      (match (generalizing := false) d.weight with | none => ω = 1 | some w => entry? w m g = some ω) ∧
+      match d.weight with
+      | none => r.weighted = none ∧
+          entry? r.residual m g = some (ω * (y - dot grow (r.clps.map (fun clp => dot row clp)))) ∧
+          entry? r.fitted m g = some (y - ω * (y - dot grow (r.clps.map (fun clp => dot row clp))))
+      | some _ => ∃ wres, r.weighted = some wres ∧
+          entry? wres m g = some (ω * (y - dot grow (r.clps.map (fun clp => dot row clp)))) ∧
+          entry? r.residual m g = some (ω * (y - dot grow (r.clps.map (fun clp => dot row clp))) / ω) ∧
+          entry? r.fitted m g = some (y - ω * (y - dot grow (r.clps.map (fun clp => dot row clp))) / ω) :=
+  full_point mi s d lm gm G r h hgne hlm hgm hGb hok hd hG hGw g m hg hm
+
+/-- **Full model: `fitted[m][g] = Σ_j G[g][j] · (M_g[m] · clp_j)`** wherever the weight (if any) is non-zero. -/
+theorem fitted_eq_matrix_clp_global_full (mi : ModelItems) (s : Solver) (d : Dataset) (lm gm : LMat) (G : Mat)
+    (r : DsResult) (h : unlinkedResult mi s d = some r) (hgne : d.gmcs ≠ [])
+    (hlm : datasetMatrix d.mcs = some lm) (hgm : datasetMatrix d.gmcs = some gm) (hGb : gm.body = .d2 G)
+    (hok : LMatOK d.nModel d.nGlobal lm) (hd : DataOK d) (hG : G.length = d.nGlobal)
+    (hGw : ∀ r ∈ G, r.length = gm.labels.length)
+    (g m : Nat) (hg : g < d.nGlobal) (hm : m < d.nModel)
+    (hw : ∀ w, d.weight = some w → entry? w m g ≠ some 0) :
+    ∃ grow row, G[g]? = some grow ∧ (matrixAt lm d.nGlobal g)[m]? = some row ∧
+      entry? r.fitted m g = some (dot grow (r.clps.map (fun clp => dot row clp))) := by
+  obtain ⟨_, _, grow, row, y, ω, h1, h2, _, hω, h5⟩ :=
+    full_point mi s d lm gm G r h hgne hlm hgm hGb hok hd hG hGw g m hg hm
+  refine ⟨grow, row, h1, h2, ?_⟩
+  cases hwt : d.weight with
+  | none =>
+    rw [hwt] at h5 hω
+    simp only at h5 hω
+    subst hω
+    rw [h5.2.2]; congr 1; ring
+  | some w =>
+    rw [hwt] at h5 hω
+    simp only at h5 hω
+    obtain ⟨wres, _, _, _, hf⟩ := h5
+    have hne : ω ≠ 0 := by
+      intro h0; subst h0; exact hw w hwt hω
+    rw [hf]; congr 1; field_simp; ring
+
+/-- 2 × 3 weighted data, two compartments, two global compartments (the dataset of C02's `full_model_kron`
+    example): point (m, g) = (1, 2) -/
+private def exFull : Dataset :=
+  { label := "f", globalAxis := [0, 1, 2], data := [[1, 2, 3], [4, 5, 6]], weight := some [[1, 1, 2], [1, 3, 1]],
+    scale := none, mcs := [⟨⟨["s1", "s2"], .d2 [[1, 2], [3, 4]]⟩, none⟩],
+    gmcs := [⟨⟨["g1", "g2"], .d2 [[1, 0], [1, 1], [2, 5]]⟩, none⟩] }
+
+example : ∃ r grow row, unlinkedResult {} .vp exFull = some r ∧
+    ([[1, 0], [1, 1], [2, 5]] : Mat)[2]? = some grow ∧
+    (matrixAt ⟨["s1", "s2"], .d2 [[1, 2], [3, 4]]⟩ 3 2)[1]? = some row ∧
+    entry? r.fitted 1 2 = some (dot grow (r.clps.map (fun clp => dot row clp))) := by
+  have hs : (unlinkedResult {} .vp exFull).isSome = true := by decide +kernel
+  obtain ⟨r, hr⟩ := Option.isSome_iff_exists.mp hs
+  obtain ⟨grow, row, h1, h2, h3⟩ := fitted_eq_matrix_clp_global_full {} .vp exFull
+    ⟨["s1", "s2"], .d2 [[1, 2], [3, 4]]⟩ ⟨["g1", "g2"], .d2 [[1, 0], [1, 1], [2, 5]]⟩ [[1, 0], [1, 1], [2, 5]] r hr
+    (by decide) rfl rfl rfl
+    (by refine ⟨by decide, ?_⟩; show _ ∧ _; exact ⟨by decide, by decide⟩)
+    ⟨by decide, by
+      intro w hw
+      obtain rfl : [[1, 1, 2], [1, 3, 1]] = w := Option.some.inj hw
+      decide⟩
+    (by decide) (by decide) 2 1 (by decide) (by decide) (by
+      intro w hw
+      obtain rfl : [[1, 1, 2], [1, 3, 1]] = w := Option.some.inj hw
+      decide +kernel)
+  exact ⟨r, grow, row, hr, h1, h2, h3⟩
+
+/-- the numbers: clp rows (per global compartment) and the fitted data of that example -/
+example : (unlinkedResult {} .vp exFull).map (fun r => (r.clps, r.fitted)) =
+    some ([[46363/15755, -12544/15755], [-17003/15755, 9019/15755]],
+      [[185/137, 194/137, 415/137], [649/115, 108/23, 753/115]]) := by decide +kernel
+
+/-! ### 10. the legacy layout -/
+
+/-- **`linkedResults` (a dataset's columns in aligned-axis order — the code before fix D27, still used by
+    C13's lemmas) equals `linkedResultsOwn` (own global index order — the repaired code, what the C03 driver
+    executes) whenever every dataset's aligned axis is strictly increasing.** -/
+theorem legacy_layout_eq_own_of_ascending (mi : ModelItems) (g : Group)
+    (hsorted : ∀ aligned, alignAxes (g.datasets.map (·.globalAxis)) g.tol g.method = some aligned →
+      ∀ al ∈ aligned, al.Pairwise (· < ·)) :
+    linkedResults mi g = linkedResultsOwn mi g :=
+  linkedResults_eq_own mi g hsorted
+
+/-- ascending axes (the example group of section 7) … -/
+example : alignAxes ((exGroup "a" "b").datasets.map (·.globalAxis)) 0 .nearest = some [[0, 1], [1, 2]] ∧
+    (∀ al ∈ ([[0, 1], [1, 2]] : List (List Rat)), al.Pairwise (· < ·)) ∧
+    linkedResults {} (exGroup "a" "b") = linkedResultsOwn {} (exGroup "a" "b") := by
+  refine ⟨by decide +kernel, by decide +kernel, ?_⟩
+  apply legacy_layout_eq_own_of_ascending
+  intro aligned hal al hmem
+  have h : alignAxes ((exGroup "a" "b").datasets.map (·.globalAxis)) (exGroup "a" "b").tol (exGroup "a" "b").method
+      = some [[0, 1], [1, 2]] := by decide +kernel
+  rw [h] at hal
+  obtain rfl := Option.some.inj hal
+  revert al hmem
+  decide +kernel
+
+/-- … and the hypothesis cannot be dropped: with descending axes the two layouts differ (the legacy one is
+    the defect D27) -/
+example :
+    let g : Group :=
+      { linked := true, solver := .vp, tol := 0, method := .nearest,
+        datasets := [
+          { label := "a", globalAxis := [2, 1], data := [[0, -2], [3, 1], [-1, 4]], weight := none, scale := none,
+            mcs := [⟨⟨["c"], .d2 [[1], [1], [2]]⟩, none⟩], gmcs := [] },
+          { label := "b", globalAxis := [3, 2], data := [[0, -2], [3, 1], [-1, 4]], weight := none, scale := some 2,
+            mcs := [⟨⟨["c"], .d2 [[1], [0], [1]]⟩, none⟩], gmcs := [] }] }
+    (linkedResults {} g).map (List.map (·.clps)) ≠ (linkedResultsOwn {} g).map (List.map (·.clps)) := by
   decide +kernel
 
 end Glotaran.C03
